@@ -32,6 +32,19 @@ log = logging.getLogger(__name__)
 LARGE_LITERAL_SIZE = 15
 
 
+def _replace_class_name(t: pytd.Type, name: str) -> pytd.Type:
+  """Replaces the class name in `C`, `C[...]` or `type[C]`."""
+  if isinstance(t, pytd.GenericType):
+    if t.name == "builtins.type":
+      return t.Replace(
+          parameters=tuple(_replace_class_name(p, name) for p in t.parameters)
+      )
+    return t.Replace(base_type=_replace_class_name(t.base_type, name))
+  if isinstance(t, (pytd.NamedType, pytd.ClassType, pytd.LateType)):
+    return t.Replace(name=name)
+  return t
+
+
 class Converter(utils.ContextWeakrefMixin):
   """Functions for converting abstract classes into PyTD."""
 
@@ -914,7 +927,7 @@ class Converter(utils.ContextWeakrefMixin):
               return None
             # Remove any outer class prefixes from the type name.
             if "." in full_name:
-              new_self_type = self_type.Replace(name=v.name)
+              new_self_type = _replace_class_name(self_type, v.name)
               new_first_param = sig.params[0].Replace(type=new_self_type)
               return sig.Replace(params=(new_first_param,) + sig.params[1:])
             else:
